@@ -28,6 +28,8 @@ view == vars
 EmitSched == (faults' # faults) => PrintT(<<"SCHED", ToJson(faults')>>)
 NoEmit == TRUE
 
-\* stop exploring once everything is delivered and the budget is spent (keeps the generator small)
-Quiet == TRUE
+\* deviation-on models are unbounded (every late COOKIE-ECHO opens again, every reset can re-deliver):
+\* bound the history counters so that a targeted run terminates
+DevBound == /\ \A s \in Side : opens[s] <= 2
+            /\ \A s \in Side : \A c \in ChanIds : Len(deliv[s][c]) <= Len(Msgs[Peer(s)]) + 1
 =============================================================================
